@@ -186,6 +186,18 @@ func reencoding(tx *types.Transaction) string {
 	case high:
 		return "high-s"
 	case len(sigs) > 1:
+		// signers that are not the sender although the account has no registered signer list
+		if signers, err := types.MakeSigner().GetSigners(tx); err == nil {
+			foreign := false
+			for _, a := range signers {
+				if a != tx.From() {
+					foreign = true
+				}
+			}
+			if foreign && len(signers) == 2 && signers[0] == tx.From() {
+				return "foreign-signature-appended"
+			}
+		}
 		return "multisig-other-order-or-subset"
 	}
 	return "other"
@@ -302,6 +314,14 @@ func variants(tx *types.Transaction) map[string]*types.Transaction {
 		h := *f
 		h.Sigs = [][]byte{fx.HighS(f.Sigs[0])}
 		out["high-s-twin"] = h.MustTx()
+		// somebody else appends a signature of his own over the same content (anybody can do that to a pending or
+		// executed transaction)
+		un := *f
+		un.Sigs = nil
+		fs := fx.Fields(fx.Sign(un.MustTx(), fx.NewKey("c04-foreign", 0))).Sigs[0]
+		k := *f
+		k.Sigs = [][]byte{f.Sigs[0], fs}
+		out["foreign-signature-appended"] = k.MustTx()
 	}
 	if len(f.Sigs) == 2 {
 		g := *f
@@ -460,7 +480,7 @@ func scenario(c *run.Ctx, idx int, edge bool) {
 				at = head.Time()
 			}
 			vs := variants(old)
-			names := []string{"same-bytes", "extra-signature", "high-s-twin", "reordered-multisig"}
+			names := []string{"same-bytes", "extra-signature", "high-s-twin", "reordered-multisig", "foreign-signature-appended"}
 			name := names[r.Intn(len(names))]
 			if a == 0 || edge {
 				name = "same-bytes"
